@@ -14,33 +14,33 @@ import (
 // A witness that the live pattern does not accept is silently not used (judging
 // the patterns themselves is C19's job).
 var witnesses = map[string][]string{
-	"CellAlign":             {"center", "LEFT", "char"},
-	"CellVerticalAlign":     {"top", "Baseline"},
-	"Direction":             {"rtl", "LTR"},
-	"ImageAlign":            {"left", "absmiddle"},
-	"Integer":               {"12", "0"},
-	"ISO8601":               {"1997", "1997-07", "1997-07-16", "1997-07-16T19:20+01:00", "1997-07-16T19:20:30+01:00", "1997-07-16T19:20:30.45+01:00"},
-	"ListType":              {"circle", "A", "1"},
-	"SpaceSeparatedTokens":  {"a b", "tok_1-x"},
-	"Number":                {"1.5", "-2e3", "7"},
-	"NumberOrPercent":       {"50%", "12"},
-	"Paragraph":             {"Some text, ok (fine)", "x"},
-	`[a-zA-Z]{2,20}`:        {"en", "enGB"},
-	`[a-zA-Z0-9\:\-_\.]+`:   {"a1", "sec:1.2_x-y"},
-	`(?i)^(|open)$`:         {"", "open"},
-	`^([\p{L}\p{N}_-]+)$`:   {"map1"},
-	`^([0-9]+,)+[0-9]+$`:    {"1,2,3"},
+	"CellAlign":                        {"center", "LEFT", "char"},
+	"CellVerticalAlign":                {"top", "Baseline"},
+	"Direction":                        {"rtl", "LTR"},
+	"ImageAlign":                       {"left", "absmiddle"},
+	"Integer":                          {"12", "0"},
+	"ISO8601":                          {"1997", "1997-07", "1997-07-16", "1997-07-16T19:20+01:00", "1997-07-16T19:20:30+01:00", "1997-07-16T19:20:30.45+01:00"},
+	"ListType":                         {"circle", "A", "1"},
+	"SpaceSeparatedTokens":             {"a b", "tok_1-x"},
+	"Number":                           {"1.5", "-2e3", "7"},
+	"NumberOrPercent":                  {"50%", "12"},
+	"Paragraph":                        {"Some text, ok (fine)", "x"},
+	`[a-zA-Z]{2,20}`:                   {"en", "enGB"},
+	`[a-zA-Z0-9\:\-_\.]+`:              {"a1", "sec:1.2_x-y"},
+	`(?i)^(|open)$`:                    {"", "open"},
+	`^([\p{L}\p{N}_-]+)$`:              {"map1"},
+	`^([0-9]+,)+[0-9]+$`:               {"1,2,3"},
 	`(?i)^(default|circle|rect|poly)$`: {"rect", "POLY"},
 	`(?i)^#[\p{L}\p{N}_-]+$`:           {"#map1"},
-	`(?i)(?:row|col)(?:group)?`:         {"row", "colgroup"},
-	`(?i)|nowrap`:                       {"", "nowrap"},
-	`^[a-z]+$`:                          {"abc", "q"},
-	`^[0-9]+$`:                          {"123", "7"},
-	`^[a-z0-9]+$`:                       {"a1b2"},
-	`^(red|green)$`:                     {"red", "green"},
-	`^(blue)$`:                          {"blue"},
-	`^x[0-9]$`:                          {"x1"},
-	`^y[0-9]$`:                          {"y2"},
+	`(?i)(?:row|col)(?:group)?`:        {"row", "colgroup"},
+	`(?i)|nowrap`:                      {"", "nowrap"},
+	`^[a-z]+$`:                         {"abc", "q"},
+	`^[0-9]+$`:                         {"123", "7"},
+	`^[a-z0-9]+$`:                      {"a1b2"},
+	`^(red|green)$`:                    {"red", "green"},
+	`^(blue)$`:                         {"blue"},
+	`^x[0-9]$`:                         {"x1"},
+	`^y[0-9]$`:                         {"y2"},
 }
 
 // canonical URL witnesses: url.Parse(x).String() == x and no escaping needed.
